@@ -527,6 +527,8 @@ def run(ctx):
                       'had acquired stays checked out of the pool for ever', f.loc(c))
     if n_sites < 4:
         raise AnalysisError('expected at least four session creation sites in processors / protocol code (found %d)' % n_sites)
+    from .common import download_recycles_rule
+    download_recycles_rule(ctx, 'C12-D7')
     rc = repo.func(bs.qual + '.recycle')
     okr = False
     for lp in walk_no_nested(rc.node):
